@@ -558,7 +558,7 @@ func (in *Interp) idxSel(idx *Val) string {
 	return "[?]"
 }
 
-var affineSym = regexp.MustCompile(`^[-+*(),0-9iv]+$`)
+var affineSym = regexp.MustCompile(`^[-+*/(),0-9iv]+$`)
 
 func (in *Interp) load(ptr *Val) *Val {
 	if ptr == nil {
